@@ -24,10 +24,85 @@ void expect_equiv(eng::Ctx& ctx, const std::string& sig, const ref::NFA& got, co
 	ctx.count("language_comparisons");
 }
 
-void expect_unchanged(eng::Ctx& ctx, const std::string& sig, const ExplicitFiniteAut& aut, const ref::NFA& before)
+// Chains: operations applied to the RESULTS of earlier operations (and repeatedly to the same operand object).
+// Every handle carries the language it must have, computed by the reference operations on the models of its
+// operands - never from what the library returned - so an error made on a derived operand cannot hide.
+struct FH { std::unique_ptr<ExplicitFiniteAut> aut; ref::NFA model; int fam; };   // fam: numbering family 0 = A, 1 = B, 2 = B' (disjoint from A), 3 = mixed
+
+void chain(eng::Ctx& ctx, const eng::Raw& raw, const gen::NfaPairCase& c, const ExplicitFiniteAut& a, const ExplicitFiniteAut& b,
+	const ref::NFA& VA, const ref::NFA& VB)
 {
-	ref::NFA now = libfa::read(aut);
-	if (!(now == before)) ctx.fail(sig + ":operand-changed", "operand changed from " + before.str() + " to " + now.str());
+	std::vector<FH> pool;
+	std::ostringstream log;
+	auto add = [&](ExplicitFiniteAut&& x, const ref::NFA& m, int fam) { pool.push_back(FH{std::unique_ptr<ExplicitFiniteAut>(new ExplicitFiniteAut(std::move(x))), m, fam}); };
+	{
+		eng::LibSection ls(ctx, "fa-chain:setup");
+		add(ExplicitFiniteAut(a), VA, 0);
+		add(ExplicitFiniteAut(b), VB, 1);
+		gen::Numbering nb2 = gen::make_numbering(c.header[5], c.nB, false,
+			c.numA.tab.empty() ? 0 : *std::max_element(c.numA.tab.begin(), c.numA.tab.end()) + 1);
+		add(libfa::build(c.B, nb2), libfa::lib_view(c.B, nb2), 2);
+	}
+	const size_t nsteps = std::min<size_t>(raw.size() > 1 ? raw.size() - 1 : 0, 4 + c.header[6] % 7);
+	bool derivedBinary = false, repeatedLeft = false;
+	std::set<size_t> usedAsLeft;
+	for (size_t k = 0; k < nsteps; ++k) {
+		const eng::Rec& r = raw[raw.size() - 1 - k];
+		uint32_t op = r[7] % 9;
+		size_t i = r[6] % pool.size(), j = (r[6] / 16) % pool.size();
+		if (op == 1) {
+			// UnionDisjointStates needs disjoint state sets: left from the A family, right from the B' family
+			std::vector<size_t> l, rr;
+			for (size_t x = 0; x < pool.size(); ++x) { if (pool[x].fam == 0) l.push_back(x); if (pool[x].fam == 2) rr.push_back(x); }
+			if (l.empty() || rr.empty()) continue;
+			i = l[r[6] % l.size()]; j = rr[(r[6] / 16) % rr.size()];
+			if ((r[6] / 256) % 2) std::swap(i, j);
+		}
+		if (pool[i].model.states().size() > 24 || pool[j].model.states().size() > 24) continue;
+		static const char* names[] = {"Union", "UnionDisjointStates", "Intersection", "Reverse", "RemoveUnreachableStates", "RemoveUselessStates", "GetCandidateTree", "copy", "Intersection"};
+		const std::string name = names[op];
+		log << name << "(h" << i << (op <= 2 || op == 8 ? ",h" + std::to_string(j) : "") << ")->h" << pool.size() << " ";
+		ExplicitFiniteAut res;
+		ref::NFA got, want;
+		int fam = 3;
+		try {
+			eng::LibSection ls(ctx, "fa-chain:" + name);
+			switch (op) {
+				case 0: res = ExplicitFiniteAut::Union(*pool[i].aut, *pool[j].aut); want = ref::nfa_union(pool[i].model, pool[j].model); break;
+				case 1: res = ExplicitFiniteAut::UnionDisjointStates(*pool[i].aut, *pool[j].aut); want = ref::nfa_union(pool[i].model, pool[j].model); break;
+				case 2: case 8: res = ExplicitFiniteAut::Intersection(*pool[i].aut, *pool[j].aut); want = ref::nfa_product(pool[i].model, pool[j].model); break;
+				case 3: res = pool[i].aut->Reverse(); want = pool[i].model.reversed(); fam = pool[i].fam; break;
+				case 4: res = pool[i].aut->RemoveUnreachableStates(); want = pool[i].model; fam = pool[i].fam; break;
+				case 5: res = pool[i].aut->RemoveUselessStates(); want = pool[i].model; fam = pool[i].fam; break;
+				case 6: res = pool[i].aut->GetCandidateTree(); fam = pool[i].fam; break;
+				default: res = ExplicitFiniteAut(*pool[i].aut); want = pool[i].model; fam = pool[i].fam; break;
+			}
+			got = libfa::read(res);
+		}
+		catch (const std::exception& e) { ctx.fail("fa-chain:" + name + ":exception", std::string(e.what()) + " [chain: " + log.str() + "]"); return; }
+		if (op <= 2 || op == 8) {
+			if (i >= 3 || j >= 3) derivedBinary = true;
+			if (!usedAsLeft.insert(i).second) repeatedLeft = true;
+		}
+		if (op == 6) {
+			auto sub = ref::nfa_included(got, pool[i].model);
+			if (sub.verdict == ref::Tri::NO) { ctx.fail("fa-chain:witness:not-sublanguage", "witness of a derived automaton accepts " + ref::show_word(sub.witness) + " [chain: " + log.str() + "]"); return; }
+			if (got.empty_lang() && !pool[i].model.empty_lang()) { ctx.fail("fa-chain:witness:empty", "witness of a derived automaton is empty [chain: " + log.str() + "]"); return; }
+			want = got;     // any witness is fine: continue with the one returned
+		}
+		else {
+			auto r1 = ref::nfa_included(got, want), r2 = ref::nfa_included(want, got);
+			if (r1.verdict == ref::Tri::NO) { ctx.fail("fa-chain:" + name + ":extra-word", name + " on derived operands accepts " + ref::show_word(r1.witness) + " [chain: " + log.str() + "]"); return; }
+			if (r2.verdict == ref::Tri::NO) { ctx.fail("fa-chain:" + name + ":lost-word", name + " on derived operands rejects " + ref::show_word(r2.witness) + " [chain: " + log.str() + "]"); return; }
+			if (r1.verdict == ref::Tri::UNKNOWN || r2.verdict == ref::Tri::UNKNOWN) { ctx.inconclusive("oracle-cap:fa-chain"); return; }
+		}
+		ctx.count("chain_steps_checked");
+		// keep the model small: continue with the reference language in trimmed form
+		add(std::move(res), ref::nfa_trimmed(want), fam);
+		if (pool.size() > 9) break;
+	}
+	if (derivedBinary) ctx.tag("chain:binary-op-on-derived-operand");
+	if (repeatedLeft) ctx.tag("chain:left-operand-used-twice");
 }
 
 } // namespace
@@ -99,7 +174,6 @@ void harness::run_case(const eng::Raw& raw, eng::Ctx& ctx)
 		wantU.finals.insert(VB2.finals.begin(), VB2.finals.end());
 		wantU.edges.insert(VB2.edges.begin(), VB2.edges.end());
 		expect_equiv(ctx, "fa-union-disjoint", U, wantU, "UnionDisjointStates");
-		{ eng::LibSection ls(ctx, "fa:dump-after-union-disjoint"); expect_unchanged(ctx, "fa-union-disjoint", a, VA); }
 	}
 	// --- Intersection
 	{
@@ -147,9 +221,5 @@ void harness::run_case(const eng::Raw& raw, eng::Ctx& ctx)
 			ctx.fail("fa-witness:empty", "witness is empty although L(A) is not; A = " + VA.str() + " witness " + W.str());
 		ctx.count("witnesses_checked");
 	}
-	{
-		eng::LibSection ls(ctx, "fa:dump-operands-after");
-		expect_unchanged(ctx, "fa-ops:lhs", a, VA);
-		expect_unchanged(ctx, "fa-ops:rhs", b, VB);
-	}
+	chain(ctx, raw, c, a, b, VA, VB);
 }
